@@ -165,9 +165,13 @@ class LossFn:
     def __init__(self, lcfg, num, multi):
         self.family = lcfg["family"]
         self.metric = lcfg.get("metric")
+        k = lcfg.get("scale_exp", 0)
+        self.scale = None if not k else num(1, 10 ** k)
         self.seed = lcfg.get("seed", 0)
         self.num = num
         self.multi = multi
+        self.mag = None
+        self.last_mag = 0.0
 
     def target(self, y, lab):
         if self.multi:
@@ -175,6 +179,19 @@ class LossFn:
         return y
 
     def __call__(self, y, pred):
+        self.mag = None
+        v = self._unscaled(y, pred)
+        out = v if self.scale is None else v * self.scale
+        # magnitude of the terms the loss is made of (a signed loss can cancel to rounding noise; tolerances must then
+        # follow the terms, not the tiny result)
+        try:
+            m = abs(float(v)) if self.mag is None else float(self.mag)
+            self.last_mag = m if self.scale is None else m * float(self.scale)
+        except Exception:
+            self.last_mag = 0.0
+        return out
+
+    def _unscaled(self, y, pred):
         fam, num = self.family, self.num
         if fam == "river":
             # closed form of what a fresh river metric reports after the single pair, smaller-is-better
@@ -205,6 +222,10 @@ class LossFn:
                 tot = tot + abs(diff)
             elif fam == "lin":       # signed, linear: sum contributions can cancel
                 tot = tot + diff
+                try:
+                    self.mag = (self.mag or 0.0) + abs(float(self.target(y, lab))) + abs(float(pred.get(lab, 0)))
+                except Exception:
+                    pass
             else:
                 raise ValueError(fam)
         return tot
@@ -230,6 +251,7 @@ class World:
         self.fault = None
         self.fired = None
         self.maxloss = 0.0
+        self.maxpred = 0.0
         multi = cfg["model"]["family"] in ("multi", "riverlabel", "zerosum")
         self.multi = multi
         self.model_fn = ModelFn(cfg["model"], self.names, self.num)
@@ -294,6 +316,15 @@ class World:
                 self.events.append(("F", kind, c[kind], c["any"]))
                 raise exc
 
+    def note_pred(self, out):
+        try:
+            for v in out.values():
+                a = abs(float(v))
+                if a > self.maxpred:
+                    self.maxpred = a
+        except Exception:
+            pass
+
     def note_loss(self, v):
         try:
             a = abs(float(v))
@@ -343,6 +374,7 @@ def make_rec_model(world, mcfg):
                 if isinstance(x, dict):
                     world.callout("model")
                     out = RiverWrapper.__call__(self, x)
+                    world.note_pred(out)
                     world.events.append(("M", snap(x), snap(out)))
                     return out
                 world.callout("model")
@@ -355,6 +387,7 @@ def make_rec_model(world, mcfg):
         if isinstance(x, dict):
             world.callout("model")
             out = fn(x)
+            world.note_pred(out)
             world.events.append(("M", snap(x), snap(out)))
             return out
         world.callout("model")
@@ -394,7 +427,7 @@ def make_rec_loss(world, lcfg):
     def core(y, p):
         world.callout("loss")
         v = fn(y, p)
-        world.note_loss(v)
+        world.note_loss(getattr(fn, "last_mag", v))
         world.events.append(("L", y, snap(p), v))
         return v
 
@@ -417,6 +450,30 @@ def make_rec_loss(world, lcfg):
             def __call__(self, y_true, y_pred):
                 return core(y_true, y_pred)
         return LossObj()
+    if sig == "varargs":
+        return lambda *args: core(args[0], args[1])
+    if sig == "y_varargs":
+        def loss_y_varargs(y_true, *preds):
+            return core(y_true, preds[0])
+        return loss_y_varargs
+    if sig == "decorated":            # a decorator wrapper written without functools.wraps
+        def deco(f):
+            def wrapper(*args, **kwargs):
+                return f(*args, **kwargs)
+            return wrapper
+        return deco(core)
+    if sig == "partial":
+        import functools
+        return functools.partial(lambda scale, y, p: core(y, p), 1)
+    if sig == "method":
+        class Holder:
+            def loss(self, y_true, y_pred):
+                return core(y_true, y_pred)
+        return Holder().loss
+    if sig == "defaulted":
+        def loss_defaulted(y_true, y_pred, sample_weight=None):
+            return core(y_true, y_pred)
+        return loss_defaulted
     raise ValueError(sig)
 
 
